@@ -135,9 +135,9 @@ func vkNewSrvWorld() *vkSrvWorld {
 	return w
 }
 
-// newTCP builds the real TCP engine with `conns` small slabs and one large slab.
+// newTCP builds the real TCP engine with `conns` small slabs and `conns` large slabs.
 func (w *vkSrvWorld) newTCP(conns int) {
-	w.tcp = newTCPEngine(w.srv, "tcp", conns, resourcePlan{tcpConns: conns, tcpSmallJobs: conns, tcpLargeJobs: 1})
+	w.tcp = newTCPEngine(w.srv, "tcp", conns, resourcePlan{tcpConns: conns, tcpSmallJobs: conns, tcpLargeJobs: conns})
 }
 
 // ---- scripted connection
